@@ -472,7 +472,7 @@ theorem brEntry_liftT (a1 a2 g : Fin n → ℚ) :
 /-! ### `compute_base_rate`, arm by arm (`bl`, `br` arbitrary belief tables) -/
 
 /-- shared base-rate object: returned unchanged -/
-theorem computeBaseRate_same (op : FuseOp) (l r : Opinion (XQ f) n) :
+theorem computeBaseRate_same {α : Type} [Scalar α] (op : FuseOp) (l r : Opinion α n) :
     computeBaseRate op true l r = l.a := by
   unfold computeBaseRate; simp
 
@@ -632,5 +632,526 @@ theorem computeBaseRate_lift (op : FuseOp) (same : Bool) (bl br : Tab (XQ f) n) 
       rw [if_neg v2]
       exact computeBaseRate_wgh_formula _ _ a1 a2 h11 h21 hd v1 v2
   · simp only [if_true]; exact computeBaseRate_same op _ _
+
+/-! ### algebra of the belief closed forms -/
+
+theorem dog_swf {b1 b2 : Fin n → ℚ} {u1 u2 : ℚ} (h1 : SWF b1 u1) (h2 : SWF b2 u2)
+    (hs : 0 < (2 - u1 - u2) / 2) : SWF (dogB b1 u1 b2 u2) 0 := by
+  refine ⟨fun i => ?_, le_refl _, ?_⟩
+  · unfold dogB
+    exact div_nonneg (div_nonneg (add_nonneg (h1.hb i) (h2.hb i)) (by norm_num)) hs.le
+  · unfold dogB
+    rw [← Finset.sum_div, add_zero, ← add_zero (∑ i, (b1 i + b2 i) / 2), dog_sum h1 h2]
+    exact div_self (ne_of_gt hs)
+
+theorem acm_swf {b1 b2 : Fin n → ℚ} {u1 u2 : ℚ} (h1 : SWF b1 u1) (h2 : SWF b2 u2)
+    (ht : 0 < u1 + u2 - u1 * u2) : SWF (acmB b1 u1 b2 u2) (acmU u1 u2) :=
+  ⟨fun i => div_nonneg (add_nonneg (mul_nonneg (h1.hb i) h2.hu) (mul_nonneg (h2.hb i) h1.hu)) ht.le,
+    div_nonneg (mul_nonneg h1.hu h2.hu) ht.le, acm_sum h1 h2 (ne_of_gt ht)⟩
+
+theorem avg_swf {b1 b2 : Fin n → ℚ} {u1 u2 : ℚ} (h1 : SWF b1 u1) (h2 : SWF b2 u2)
+    (ht : 0 < u1 + u2) : SWF (avgB b1 u1 b2 u2) (avgU u1 u2) :=
+  ⟨fun i => div_nonneg (add_nonneg (mul_nonneg (h1.hb i) h2.hu) (mul_nonneg (h2.hb i) h1.hu)) ht.le,
+    div_nonneg (mul_nonneg (mul_nonneg (by norm_num) h1.hu) h2.hu) ht.le, avg_sum h1 h2 (ne_of_gt ht)⟩
+
+theorem wgh_swf {b1 b2 : Fin n → ℚ} {u1 u2 : ℚ} (h1 : SWF b1 u1) (h2 : SWF b2 u2)
+    (ht : 0 < u2 * (1 - u1) + u1 * (1 - u2)) : SWF (wghB b1 u1 b2 u2) (wghU u1 u2) := by
+  have c1 := sub_nonneg.mpr h1.u_le_one
+  have c2 := sub_nonneg.mpr h2.u_le_one
+  exact ⟨fun i => div_nonneg (add_nonneg (mul_nonneg (mul_nonneg (h1.hb i) c1) h2.hu)
+      (mul_nonneg (mul_nonneg (h2.hb i) c2) h1.hu)) ht.le,
+    div_nonneg (mul_nonneg (mul_nonneg (add_nonneg c1 c2) h1.hu) h2.hu) ht.le,
+    wgh_sum h1 h2 (ne_of_gt ht)⟩
+
+/-- the rational ladder of `compute_simlex` maps well-formed simplexes to a well-formed simplex,
+    in every arm (tolerance bands included) -/
+theorem simplexQ_swf (f : Fmt) (op : FuseOp) {b1 b2 : Fin n → ℚ} {u1 u2 : ℚ} (h1 : SWF b1 u1)
+    (h2 : SWF b2 u2) : SWF (simplexQ f op b1 u1 b2 u2).1 (simplexQ f op b1 u1 b2 u2).2 := by
+  have he := XQ.eps_pos f
+  have he' := XQ.eps_lt f
+  unfold simplexQ
+  by_cases hd : GDog f u1 ∧ GDog f u2
+  · rw [if_pos hd]
+    have := (abs_le.mp hd.1).2; have := (abs_le.mp hd.2).2
+    exact dog_swf h1 h2 (by linarith)
+  rw [if_neg hd]
+  have cum : ∀ F : (Fin n → ℚ) × ℚ,
+      (¬ GDog f u1 → ¬ GDog f u2 → ¬ GVac f u1 → ¬ GVac f u2 → SWF F.1 F.2) →
+      SWF (if GVac f u1 ∧ GVac f u2 then ((fun _ => 0 : Fin n → ℚ), (1 : ℚ))
+            else if GVac f u1 ∨ GDog f u2 then (b2, u2)
+            else if GVac f u2 ∨ GDog f u1 then (b1, u1) else F).1
+          (if GVac f u1 ∧ GVac f u2 then ((fun _ => 0 : Fin n → ℚ), (1 : ℚ))
+            else if GVac f u1 ∨ GDog f u2 then (b2, u2)
+            else if GVac f u2 ∨ GDog f u1 then (b1, u1) else F).2 := by
+    intro F hF
+    split_ifs with hv hr hl
+    · exact SWF.vacuous
+    · exact h2
+    · exact h1
+    · exact hF (fun h => hl (Or.inr h)) (fun h => hr (Or.inr h)) (fun h => hr (Or.inl h))
+        (fun h => hl (Or.inl h))
+  cases op
+  · exact cum _ fun nd1 _ _ _ => acm_swf h1 h2
+      (acm_temp_pos (by linarith [pos_of_not_GDog h1.hu nd1]) h1.u_le_one h2.hu)
+  · exact cum _ fun nd1 _ _ _ => acm_swf h1 h2
+      (acm_temp_pos (by linarith [pos_of_not_GDog h1.hu nd1]) h1.u_le_one h2.hu)
+  · show SWF (if GDog f u1 then (b1, u1) else if GDog f u2 then (b2, u2)
+        else (avgB b1 u1 b2 u2, avgU u1 u2)).1 (if GDog f u1 then (b1, u1)
+        else if GDog f u2 then (b2, u2) else (avgB b1 u1 b2 u2, avgU u1 u2)).2
+    split_ifs with d1 d2
+    · exact h1
+    · exact h2
+    · exact avg_swf h1 h2 (by linarith [pos_of_not_GDog h1.hu d1, h2.hu])
+  · exact cum _ fun _ nd2 nv1 _ => wgh_swf h1 h2
+      (wgh_temp_pos (by linarith [lt_of_not_GVac h1.u_le_one nv1]) h1.hu
+        (by linarith [pos_of_not_GDog h2.hu nd2]) h2.u_le_one)
+
+/-! ### algebra of the base-rate closed forms -/
+
+/-- a convex combination lies between its arguments -/
+theorem convex_between {x y w1 w2 : ℚ} (h1 : 0 ≤ w1) (h2 : 0 ≤ w2) (h : 0 < w1 + w2) :
+    min x y ≤ (x * w1 + y * w2) / (w1 + w2) ∧ (x * w1 + y * w2) / (w1 + w2) ≤ max x y := by
+  constructor
+  · rw [le_div_iff₀ h]
+    nlinarith [mul_le_mul_of_nonneg_right (min_le_left x y) h1,
+      mul_le_mul_of_nonneg_right (min_le_right x y) h2]
+  · rw [div_le_iff₀ h]
+    nlinarith [mul_le_mul_of_nonneg_right (le_max_left x y) h1,
+      mul_le_mul_of_nonneg_right (le_max_right x y) h2]
+
+theorem meanA_eq (a1 a2 : Fin n → ℚ) (i : Fin n) :
+    meanA a1 a2 i = (a1 i * 1 + a2 i * 1) / (1 + 1) := by unfold meanA; ring
+
+theorem acmA_eq (a1 a2 : Fin n → ℚ) (u1 u2 : ℚ) (i : Fin n) :
+    acmA a1 u1 a2 u2 i
+      = (a1 i * (u2 * (1 - u1)) + a2 i * (u1 * (1 - u2))) / (u2 * (1 - u1) + u1 * (1 - u2)) := by
+  unfold acmA; ring
+
+/-- weights of the three base-rate formulas: non-negative with positive sum -/
+structure Weights (w1 w2 : ℚ) : Prop where
+  h1 : 0 ≤ w1
+  h2 : 0 ≤ w2
+  hs : 0 < w1 + w2
+
+/-- `g` is entrywise the convex combination of `a1`, `a2` with weights `w1`, `w2` -/
+def IsMix (a1 a2 g : Fin n → ℚ) (w1 w2 : ℚ) : Prop :=
+  ∀ i, g i = (a1 i * w1 + a2 i * w2) / (w1 + w2)
+
+theorem isMix_mean (a1 a2 : Fin n → ℚ) : IsMix a1 a2 (meanA a1 a2) 1 1 := meanA_eq a1 a2
+theorem isMix_acm (a1 a2 : Fin n → ℚ) (u1 u2 : ℚ) :
+    IsMix a1 a2 (acmA a1 u1 a2 u2) (u2 * (1 - u1)) (u1 * (1 - u2)) := acmA_eq a1 a2 u1 u2
+theorem isMix_wgh (a1 a2 : Fin n → ℚ) (u1 u2 : ℚ) :
+    IsMix a1 a2 (wghA a1 u1 a2 u2) (1 - u1) (1 - u2) := fun _ => rfl
+
+theorem weights_mean : Weights 1 1 := ⟨zero_le_one, zero_le_one, by norm_num⟩
+
+theorem IsMix.between {a1 a2 g : Fin n → ℚ} {w1 w2 : ℚ} (hm : IsMix a1 a2 g w1 w2)
+    (hw : Weights w1 w2) (i : Fin n) : min (a1 i) (a2 i) ≤ g i ∧ g i ≤ max (a1 i) (a2 i) := by
+  rw [hm i]; exact convex_between hw.h1 hw.h2 hw.hs
+
+theorem IsMix.of_eq {a1 a2 g : Fin n → ℚ} {w1 w2 : ℚ} (hm : IsMix a1 a2 g w1 w2)
+    (hw : Weights w1 w2) {i : Fin n} (h : a1 i = a2 i) : g i = a1 i := by
+  rw [hm i, ← h, ← mul_add, mul_div_assoc, div_self (ne_of_gt hw.hs), mul_one]
+
+theorem IsMix.sum {a1 a2 g : Fin n → ℚ} {w1 w2 : ℚ} (hm : IsMix a1 a2 g w1 w2)
+    (hw : Weights w1 w2) (s1 : ∑ i, a1 i = 1) (s2 : ∑ i, a2 i = 1) : ∑ i, g i = 1 := by
+  have : g = fun i => (a1 i * w1 + a2 i * w2) / (w1 + w2) := funext hm
+  rw [this, ← Finset.sum_div, Finset.sum_add_distrib, ← Finset.sum_mul, ← Finset.sum_mul, s1, s2,
+    one_mul, one_mul, div_self (ne_of_gt hw.hs)]
+
+theorem short_between {a1 a2 g : Fin n → ℚ}
+    (hg : ∀ i, min (a1 i) (a2 i) ≤ g i ∧ g i ≤ max (a1 i) (a2 i)) (i : Fin n) :
+    min (a1 i) (a2 i) ≤ short f a1 a2 g i ∧ short f a1 a2 g i ≤ max (a1 i) (a2 i) := by
+  unfold short; split
+  · exact ⟨min_le_left _ _, le_max_left _ _⟩
+  · exact hg i
+
+/-- if the shortcut is only taken at equal entries (and the formula returns equal entries unchanged),
+    it is invisible -/
+theorem short_eq_of_agree {a1 a2 g : Fin n → ℚ} (hsc : ∀ i, sc f a1 a2 i = true → a1 i = a2 i)
+    (hg : ∀ i, a1 i = a2 i → g i = a1 i) : short f a1 a2 g = g := by
+  funext i; unfold short; split
+  · exact (hg i (hsc i ‹_›)).symm
+  · rfl
+
+/-- each shortcut entry replaces a value between `a1 i` and `a2 i` by `a1 i` -/
+theorem short_sum_bound {a1 a2 g : Fin n → ℚ}
+    (hg : ∀ i, min (a1 i) (a2 i) ≤ g i ∧ g i ≤ max (a1 i) (a2 i)) (hs : ∑ i, g i = 1) :
+    |∑ i, short f a1 a2 g i - 1| ≤ ∑ i, if sc f a1 a2 i then |a1 i - a2 i| else 0 := by
+  rw [← hs, ← Finset.sum_sub_distrib]
+  refine le_trans (Finset.abs_sum_le_sum_abs _ _) (Finset.sum_le_sum fun i _ => ?_)
+  unfold short; split
+  · obtain ⟨l, r⟩ := hg i
+    rw [abs_le]
+    rcases le_total (a1 i) (a2 i) with h | h
+    · rw [min_eq_left h] at l; rw [max_eq_right h] at r
+      rw [abs_of_nonpos (sub_nonpos.mpr h)]; constructor <;> linarith
+    · rw [min_eq_right h] at l; rw [max_eq_left h] at r
+      rw [abs_of_nonneg (sub_nonneg.mpr h)]; constructor <;> linarith
+  · simp
+
+theorem baseRateQ_same (f : Fmt) (op : FuseOp) (a1 a2 : Fin n → ℚ) (u1 u2 : ℚ) :
+    baseRateQ f op true a1 u1 a2 u2 = a1 := by
+  unfold baseRateQ; simp only [if_true]
+
+theorem isMix_left (a1 a2 : Fin n → ℚ) : IsMix a1 a2 a1 1 0 := fun i => by simp
+theorem isMix_right (a1 a2 : Fin n → ℚ) : IsMix a1 a2 a2 0 1 := fun i => by simp
+theorem weights_left : Weights 1 0 := ⟨zero_le_one, le_refl _, by norm_num⟩
+theorem weights_right : Weights 0 1 := ⟨le_refl _, zero_le_one, by norm_num⟩
+
+/-- shape of the fused base rate, all arms: a convex mixture `g` of the operands' base rates with
+    non-negative weights (clones are the weights (1,0) / (0,1)), possibly with the per-entry shortcut -/
+theorem baseRateQ_shape (f : Fmt) (op : FuseOp) (same : Bool) (a1 a2 : Fin n → ℚ) {u1 u2 : ℚ}
+    (h10 : 0 ≤ u1) (h11 : u1 ≤ 1) (h20 : 0 ≤ u2) (h21 : u2 ≤ 1) :
+    ∃ (g : Fin n → ℚ) (w1 w2 : ℚ), IsMix a1 a2 g w1 w2 ∧ Weights w1 w2 ∧
+      (baseRateQ f op same a1 u1 a2 u2 = g ∨
+        (baseRateQ f op same a1 u1 a2 u2 = short f a1 a2 g ∧ 0 < w1)) := by
+  have he := XQ.eps_pos f
+  have L : ∃ (g : Fin n → ℚ) (w1 w2 : ℚ), IsMix a1 a2 g w1 w2 ∧ Weights w1 w2 ∧
+      (a1 = g ∨ (a1 = short f a1 a2 g ∧ 0 < w1)) := ⟨a1, 1, 0, isMix_left a1 a2, weights_left, Or.inl rfl⟩
+  have R : ∃ (g : Fin n → ℚ) (w1 w2 : ℚ), IsMix a1 a2 g w1 w2 ∧ Weights w1 w2 ∧
+      (a2 = g ∨ (a2 = short f a1 a2 g ∧ 0 < w1)) := ⟨a2, 0, 1, isMix_right a1 a2, weights_right, Or.inl rfl⟩
+  have M : ∃ (g : Fin n → ℚ) (w1 w2 : ℚ), IsMix a1 a2 g w1 w2 ∧ Weights w1 w2 ∧
+      (short f a1 a2 (meanA a1 a2) = g ∨
+        (short f a1 a2 (meanA a1 a2) = short f a1 a2 g ∧ 0 < w1)) :=
+    ⟨_, 1, 1, isMix_mean a1 a2, weights_mean, Or.inr ⟨rfl, one_pos⟩⟩
+  have A : ¬ GDog f u1 → ¬ GDog f u2 → ¬ GVac f u1 → ¬ GVac f u2 →
+      ∃ (g : Fin n → ℚ) (w1 w2 : ℚ), IsMix a1 a2 g w1 w2 ∧ Weights w1 w2 ∧
+      (short f a1 a2 (acmA a1 u1 a2 u2) = g ∨
+        (short f a1 a2 (acmA a1 u1 a2 u2) = short f a1 a2 g ∧ 0 < w1)) := by
+    intro _ nd2 nv1 _
+    have p2 := pos_of_not_GDog h20 nd2
+    have l1 := lt_of_not_GVac h11 nv1
+    exact ⟨_, _, _, isMix_acm a1 a2 u1 u2,
+      ⟨mul_nonneg h20 (sub_nonneg.mpr h11), mul_nonneg h10 (sub_nonneg.mpr h21),
+        wgh_temp_pos (by linarith) h10 (by linarith) h21⟩,
+      Or.inr ⟨rfl, mul_pos (by linarith) (by linarith)⟩⟩
+  unfold baseRateQ
+  cases same
+  · simp only [Bool.false_eq_true, if_false]
+    by_cases hd : GDog f u1 ∧ GDog f u2
+    · rw [if_pos hd]; exact ⟨_, 1, 1, isMix_mean a1 a2, weights_mean, Or.inl rfl⟩
+    rw [if_neg hd]
+    cases op
+    · dsimp only
+      split_ifs with hv hr hl
+      · exact M
+      · exact R
+      · exact L
+      · exact A (fun h => hl (Or.inr h)) (fun h => hr (Or.inr h)) (fun h => hr (Or.inl h))
+          (fun h => hl (Or.inl h))
+    · dsimp only
+      split_ifs with hv hr hl
+      · exact M
+      · exact R
+      · exact L
+      · exact A (fun h => hl (Or.inr h)) (fun h => hr (Or.inr h)) (fun h => hr (Or.inl h))
+          (fun h => hl (Or.inl h))
+    · exact M
+    · dsimp only
+      split_ifs with hv v1 v2
+      · exact M
+      · exact R
+      · exact L
+      · have l1 := lt_of_not_GVac h11 v1
+        have l2 := lt_of_not_GVac h21 v2
+        exact ⟨_, _, _, isMix_wgh a1 a2 u1 u2, ⟨by linarith, by linarith, by linarith⟩,
+          Or.inr ⟨rfl, by linarith⟩⟩
+  · simp only [if_true]; exact L
+
+/-- every fused base-rate entry lies between the operands' entries (all arms) -/
+theorem baseRateQ_between (f : Fmt) (op : FuseOp) (same : Bool) (a1 a2 : Fin n → ℚ) {u1 u2 : ℚ}
+    (h10 : 0 ≤ u1) (h11 : u1 ≤ 1) (h20 : 0 ≤ u2) (h21 : u2 ≤ 1) (i : Fin n) :
+    min (a1 i) (a2 i) ≤ baseRateQ f op same a1 u1 a2 u2 i ∧
+      baseRateQ f op same a1 u1 a2 u2 i ≤ max (a1 i) (a2 i) := by
+  obtain ⟨g, w1, w2, hm, hw, h | ⟨h, _⟩⟩ := baseRateQ_shape f op same a1 a2 h10 h11 h20 h21 <;> rw [h]
+  · exact hm.between hw i
+  · exact short_between (hm.between hw) i
+
+/-- an entry on which the operands agree is returned unchanged (all arms) -/
+theorem baseRateQ_of_eq (f : Fmt) (op : FuseOp) (same : Bool) (a1 a2 : Fin n → ℚ) {u1 u2 : ℚ}
+    (h10 : 0 ≤ u1) (h11 : u1 ≤ 1) (h20 : 0 ≤ u2) (h21 : u2 ≤ 1) {i : Fin n} (h : a1 i = a2 i) :
+    baseRateQ f op same a1 u1 a2 u2 i = a1 i := by
+  have := baseRateQ_between f op same a1 a2 h10 h11 h20 h21 i
+  rw [← h, min_self, max_self] at this
+  exact le_antisymm this.2 this.1
+
+/-- the fused base rate sums to one when the shortcut is only taken at equal entries -/
+theorem baseRateQ_sum (f : Fmt) (op : FuseOp) (same : Bool) {a1 a2 : Fin n → ℚ} {u1 u2 : ℚ}
+    (h10 : 0 ≤ u1) (h11 : u1 ≤ 1) (h20 : 0 ≤ u2) (h21 : u2 ≤ 1)
+    (s1 : ∑ i, a1 i = 1) (s2 : ∑ i, a2 i = 1) (hsc : ∀ i, sc f a1 a2 i = true → a1 i = a2 i) :
+    ∑ i, baseRateQ f op same a1 u1 a2 u2 i = 1 := by
+  obtain ⟨g, w1, w2, hm, hw, h | ⟨h, _⟩⟩ := baseRateQ_shape f op same a1 a2 h10 h11 h20 h21 <;> rw [h]
+  · exact hm.sum hw s1 s2
+  · rw [short_eq_of_agree hsc (fun i => hm.of_eq hw)]; exact hm.sum hw s1 s2
+
+/-- in general the sum deviates from one by at most the total gap of the shortcut entries -/
+theorem baseRateQ_sum_bound (f : Fmt) (op : FuseOp) (same : Bool) {a1 a2 : Fin n → ℚ} {u1 u2 : ℚ}
+    (h10 : 0 ≤ u1) (h11 : u1 ≤ 1) (h20 : 0 ≤ u2) (h21 : u2 ≤ 1)
+    (s1 : ∑ i, a1 i = 1) (s2 : ∑ i, a2 i = 1) :
+    |∑ i, baseRateQ f op same a1 u1 a2 u2 i - 1| ≤ ∑ i, if sc f a1 a2 i then |a1 i - a2 i| else 0 := by
+  obtain ⟨g, w1, w2, hm, hw, h | ⟨h, _⟩⟩ := baseRateQ_shape f op same a1 a2 h10 h11 h20 h21 <;> rw [h]
+  · rw [hm.sum hw s1 s2, sub_self, abs_zero]
+    exact Finset.sum_nonneg fun i _ => by split <;> simp
+  · exact short_sum_bound (hm.between hw) (hm.sum hw s1 s2)
+
+/-- entries of the fused base rate are non-negative when the operands' are -/
+theorem baseRateQ_nonneg (f : Fmt) (op : FuseOp) (same : Bool) {a1 a2 : Fin n → ℚ} {u1 u2 : ℚ}
+    (h10 : 0 ≤ u1) (h11 : u1 ≤ 1) (h20 : 0 ≤ u2) (h21 : u2 ≤ 1)
+    (p1 : ∀ i, 0 ≤ a1 i) (p2 : ∀ i, 0 ≤ a2 i) (i : Fin n) : 0 ≤ baseRateQ f op same a1 u1 a2 u2 i :=
+  le_trans (le_min (p1 i) (p2 i)) (baseRateQ_between f op same a1 a2 h10 h11 h20 h21 i).1
+
+/-! ### `fuse` -/
+
+theorem fuse_eq_of_ne_ecm {α : Type} [Scalar α] {op : FuseOp} (hop : op ≠ .ecm) (same : Bool)
+    (l r : Opinion α n) :
+    fuse op same l r = Opinion.mk' (computeSimplex op l.simplex r.simplex) (computeBaseRate op same l r) := by
+  unfold fuse; simp only [if_neg hop]
+
+theorem fuse_ecm_eq {α : Type} [Scalar α] (same : Bool) (l r : Opinion α n) :
+    fuse .ecm same l r
+      = Opinion.mk' ((computeSimplex .ecm l.simplex r.simplex).uncertaintyMaximized
+          (computeBaseRate .ecm same l r)) (computeBaseRate .ecm same l r) := by
+  unfold fuse; simp only [if_true]
+
+/-- ACm / Avg / Wgh fusion of well-formed lifted opinions, all arms: the rational ladders.
+    (The base rates `a1`, `a2` are arbitrary rational tables.) -/
+theorem fuse_lift {op : FuseOp} (hop : op ≠ .ecm) (same : Bool) {b1 b2 : Fin n → ℚ} {u1 u2 : ℚ}
+    (h1 : SWF b1 u1) (h2 : SWF b2 u2) (a1 a2 : Fin n → ℚ) :
+    fuse op same (⟨liftT b1, XQ.fin u1, liftT a1⟩ : Opinion (XQ f) n) ⟨liftT b2, XQ.fin u2, liftT a2⟩
+      = ⟨liftT (simplexQ f op b1 u1 b2 u2).1, XQ.fin (simplexQ f op b1 u1 b2 u2).2,
+          liftT (baseRateQ f op same a1 u1 a2 u2)⟩ := by
+  rw [fuse_eq_of_ne_ecm hop]
+  unfold Opinion.simplex Opinion.mk'
+  simp only [computeSimplex_lift op h1 h2,
+    computeBaseRate_lift op same _ _ a1 a2 h1.hu h1.u_le_one h2.hu h2.u_le_one]
+
+/-- the normalised projection `(b + a u) / Σ(b + a u)` -/
+def FuseQ.projN (b a : Fin n → ℚ) (u : ℚ) (i : Fin n) : ℚ := (b i + a i * u) / ∑ j, (b j + a j * u)
+
+/-- `max_uncertainty` over a base rate that need not sum to one -/
+def FuseQ.uhatN (f : Fmt) (b a : Fin n → ℚ) (u : ℚ) : ℚ :=
+  foldMin (fun i => if |a i| ≤ f.eps then 1 else projN b a u i / a i) 1
+
+theorem projection_liftT_gen (b a : Fin n → ℚ) (u : ℚ) (hs : ∑ j, (b j + a j * u) ≠ 0) :
+    SLV.projection (liftT b : Tab (XQ f) n) (XQ.fin u) (liftT a) = liftT (projN b a u) := by
+  unfold SLV.projection normalizeProbDist
+  have e : (Vector.ofFn fun i : Fin n => (liftT b : Tab (XQ f) n)[i] + (liftT a : Tab (XQ f) n)[i] * XQ.fin u)
+      = liftT (fun i => b i + a i * u) := by
+    apply Vector.ext; intro i hi; simp [liftT]
+  rw [e, sumLoop_liftT]
+  rw [liftT_map _ _ (fun q => q / ∑ j, (b j + a j * u)) (fun q => XQ.div_fin _ _ hs)]
+  rfl
+
+/-- `uncertainty_maximized` on lifted data whose projection normaliser is non-zero: finite result -/
+theorem uncertaintyMaximized_liftT_gen (b a : Fin n → ℚ) (u : ℚ) (hs : ∑ j, (b j + a j * u) ≠ 0) :
+    Simplex.uncertaintyMaximized (⟨liftT b, XQ.fin u⟩ : Simplex (XQ f) n) (liftT a)
+      = ⟨liftT (fun i => projN b a u i - a i * uhatN f b a u), XQ.fin (uhatN f b a u)⟩ := by
+  have hm : Simplex.maxUncertainty (⟨liftT b, XQ.fin u⟩ : Simplex (XQ f) n) (liftT a)
+      = XQ.fin (uhatN f b a u) := by
+    unfold Simplex.maxUncertainty Simplex.projection
+    simp only [projection_liftT_gen b a u hs]
+    have : ∀ (acc : XQ f) (i : Fin n),
+        Scalar.min acc (maxUStep ((liftT (projN b a u) : Tab (XQ f) n)[i]) ((liftT a : Tab (XQ f) n)[i]))
+          = Scalar.min acc (XQ.fin (if |a i| ≤ f.eps then 1 else projN b a u i / a i)) := by
+      intro acc i
+      rw [liftT_getElem, liftT_getElem, SLV.Props.C09.maxUStep_fin]
+    simp only [this]
+    exact foldl_min_fin _ _
+  unfold Simplex.uncertaintyMaximized
+  simp only [hm, Simplex.projection, projection_liftT_gen b a u hs]
+  congr 1
+  apply Vector.ext; intro i hi
+  simp [liftT]
+
+/-- ECm fusion when the fused base rate is a probability distribution: the ACm ladder followed by the
+    closed form of `uncertainty_maximized` (`C09.bmax`, `C09.uhat`) -/
+theorem fuse_ecm_lift (same : Bool) {b1 b2 a1 a2 : Fin n → ℚ} {u1 u2 : ℚ}
+    (h1 : SWF b1 u1) (h2 : SWF b2 u2)
+    (hA0 : ∀ i, 0 ≤ baseRateQ f .ecm same a1 u1 a2 u2 i)
+    (hA : ∑ i, baseRateQ f .ecm same a1 u1 a2 u2 i = 1) :
+    fuse .ecm same (⟨liftT b1, XQ.fin u1, liftT a1⟩ : Opinion (XQ f) n) ⟨liftT b2, XQ.fin u2, liftT a2⟩
+      = ⟨liftT (SLV.Props.C09.bmax f (simplexQ f .ecm b1 u1 b2 u2).1 (baseRateQ f .ecm same a1 u1 a2 u2)
+            (simplexQ f .ecm b1 u1 b2 u2).2),
+          XQ.fin (SLV.Props.C09.uhat f (simplexQ f .ecm b1 u1 b2 u2).1 (baseRateQ f .ecm same a1 u1 a2 u2)
+            (simplexQ f .ecm b1 u1 b2 u2).2),
+          liftT (baseRateQ f .ecm same a1 u1 a2 u2)⟩ := by
+  rw [fuse_ecm_eq]
+  unfold Opinion.simplex Opinion.mk'
+  simp only [computeSimplex_lift .ecm h1 h2,
+    computeBaseRate_lift .ecm same _ _ a1 a2 h1.hu h1.u_le_one h2.hu h2.u_le_one,
+    SLV.Props.C09.C09_max_lift ((simplexQ_swf f .ecm h1 h2).toWF hA0 hA)]
+
+/-- the fused base rate never vanishes entirely (operands' base rates are distributions) -/
+theorem baseRateQ_sum_pos (f : Fmt) (op : FuseOp) (same : Bool) {a1 a2 : Fin n → ℚ} {u1 u2 : ℚ}
+    (h10 : 0 ≤ u1) (h11 : u1 ≤ 1) (h20 : 0 ≤ u2) (h21 : u2 ≤ 1)
+    (p1 : ∀ i, 0 ≤ a1 i) (p2 : ∀ i, 0 ≤ a2 i) (s1 : ∑ i, a1 i = 1) (s2 : ∑ i, a2 i = 1) :
+    0 < ∑ i, baseRateQ f op same a1 u1 a2 u2 i := by
+  obtain ⟨g, w1, w2, hm, hw, h | ⟨h, hw1⟩⟩ := baseRateQ_shape f op same a1 a2 h10 h11 h20 h21
+  · rw [h, hm.sum hw s1 s2]; exact one_pos
+  · have hnn := baseRateQ_nonneg f op same h10 h11 h20 h21 p1 p2
+    obtain ⟨i, hi⟩ : ∃ i, 0 < a1 i := by
+      by_contra hc
+      simp only [not_exists, not_lt] at hc
+      have : ∑ i, a1 i = 0 := Finset.sum_eq_zero fun i _ => le_antisymm (hc i) (p1 i)
+      rw [s1] at this; exact one_ne_zero this
+    apply Finset.sum_pos' (fun i _ => hnn i) ⟨i, Finset.mem_univ i, ?_⟩
+    rw [h]; unfold short; split
+    · exact hi
+    · rw [hm i]
+      exact div_pos (add_pos_of_pos_of_nonneg (mul_pos hi hw1) (mul_nonneg (p2 i) hw.h2)) hw.hs
+
+/-- the projection normaliser of the ACm result under the fused base rate is positive -/
+theorem ecm_norm_pos (f : Fmt) (same : Bool) {b1 b2 a1 a2 : Fin n → ℚ} {u1 u2 : ℚ}
+    (h1 : WF b1 u1 a1) (h2 : WF b2 u2 a2) :
+    0 < ∑ j, ((simplexQ f .ecm b1 u1 b2 u2).1 j
+        + baseRateQ f .ecm same a1 u1 a2 u2 j * (simplexQ f .ecm b1 u1 b2 u2).2) := by
+  have hS := simplexQ_swf f .ecm h1.swf h2.swf
+  have hp := baseRateQ_sum_pos f .ecm same h1.hu h1.swf.u_le_one h2.hu h2.swf.u_le_one
+    h1.ha0 h2.ha0 h1.ha h2.ha
+  rw [Finset.sum_add_distrib, ← Finset.sum_mul, hS.sum_b]
+  rcases lt_or_eq_of_le hS.u_le_one with hlt | heq
+  · nlinarith [mul_nonneg hp.le hS.hu]
+  · rw [heq]; linarith
+
+/-- ECm fusion of well-formed lifted opinions is finite in EVERY arm, also when the `ulps_eq!` shortcut
+    makes the fused base rate sum to something other than one (the projection is then renormalised) -/
+theorem fuse_ecm_lift_gen (same : Bool) {b1 b2 a1 a2 : Fin n → ℚ} {u1 u2 : ℚ}
+    (h1 : WF b1 u1 a1) (h2 : WF b2 u2 a2) :
+    fuse .ecm same (⟨liftT b1, XQ.fin u1, liftT a1⟩ : Opinion (XQ f) n) ⟨liftT b2, XQ.fin u2, liftT a2⟩
+      = ⟨liftT (fun i => projN (simplexQ f .ecm b1 u1 b2 u2).1 (baseRateQ f .ecm same a1 u1 a2 u2)
+              (simplexQ f .ecm b1 u1 b2 u2).2 i
+            - baseRateQ f .ecm same a1 u1 a2 u2 i *
+              uhatN f (simplexQ f .ecm b1 u1 b2 u2).1 (baseRateQ f .ecm same a1 u1 a2 u2)
+                (simplexQ f .ecm b1 u1 b2 u2).2),
+          XQ.fin (uhatN f (simplexQ f .ecm b1 u1 b2 u2).1 (baseRateQ f .ecm same a1 u1 a2 u2)
+            (simplexQ f .ecm b1 u1 b2 u2).2),
+          liftT (baseRateQ f .ecm same a1 u1 a2 u2)⟩ := by
+  rw [fuse_ecm_eq]
+  unfold Opinion.simplex Opinion.mk'
+  simp only [computeSimplex_lift .ecm h1.swf h2.swf,
+    computeBaseRate_lift .ecm same _ _ a1 a2 h1.hu h1.swf.u_le_one h2.hu h2.swf.u_le_one,
+    uncertaintyMaximized_liftT_gen _ _ _ (ne_of_gt (ecm_norm_pos f same h1 h2))]
+
+/-! ### operands outside the tolerance bands: the guards are the exact tests `u = 0`, `u = 1` -/
+
+namespace FuseQ
+
+/-- `simplexQ` with exact tests instead of tolerance guards (no dependence on the format) -/
+def simplexQ0 (op : FuseOp) (b1 : Fin n → ℚ) (u1 : ℚ) (b2 : Fin n → ℚ) (u2 : ℚ) :
+    (Fin n → ℚ) × ℚ :=
+  if u1 = 0 ∧ u2 = 0 then (dogB b1 u1 b2 u2, 0)
+  else match op with
+    | .acm | .ecm =>
+      if u1 = 1 ∧ u2 = 1 then (fun _ => 0, 1)
+      else if u1 = 1 ∨ u2 = 0 then (b2, u2)
+      else if u2 = 1 ∨ u1 = 0 then (b1, u1)
+      else (acmB b1 u1 b2 u2, acmU u1 u2)
+    | .avg =>
+      if u1 = 0 then (b1, u1)
+      else if u2 = 0 then (b2, u2)
+      else (avgB b1 u1 b2 u2, avgU u1 u2)
+    | .wgh =>
+      if u1 = 1 ∧ u2 = 1 then (fun _ => 0, 1)
+      else if u1 = 1 ∨ u2 = 0 then (b2, u2)
+      else if u2 = 1 ∨ u1 = 0 then (b1, u1)
+      else (wghB b1 u1 b2 u2, wghU u1 u2)
+
+/-- `baseRateQ` with exact tests instead of tolerance guards (the per-entry shortcut stays) -/
+def baseRateQ0 (f : Fmt) (op : FuseOp) (same : Bool) (a1 : Fin n → ℚ) (u1 : ℚ) (a2 : Fin n → ℚ)
+    (u2 : ℚ) : Fin n → ℚ :=
+  if same then a1
+  else if u1 = 0 ∧ u2 = 0 then meanA a1 a2
+  else match op with
+    | .acm | .ecm =>
+      if u1 = 1 ∧ u2 = 1 then short f a1 a2 (meanA a1 a2)
+      else if u1 = 1 ∨ u2 = 0 then a2
+      else if u2 = 1 ∨ u1 = 0 then a1
+      else short f a1 a2 (acmA a1 u1 a2 u2)
+    | .avg => short f a1 a2 (meanA a1 a2)
+    | .wgh =>
+      if u1 = 1 ∧ u2 = 1 then short f a1 a2 (meanA a1 a2)
+      else if u1 = 1 then a2
+      else if u2 = 1 then a1
+      else short f a1 a2 (wghA a1 u1 a2 u2)
+
+end FuseQ
+
+theorem simplexQ_plain (op : FuseOp) (b1 b2 : Fin n → ℚ) {u1 u2 : ℚ} (p1 : Plain f u1) (p2 : Plain f u2) :
+    simplexQ f op b1 u1 b2 u2 = simplexQ0 op b1 u1 b2 u2 := by
+  unfold simplexQ simplexQ0
+  simp only [p1.GDog_iff, p1.GVac_iff, p2.GDog_iff, p2.GVac_iff]
+
+theorem baseRateQ_plain (op : FuseOp) (same : Bool) (a1 a2 : Fin n → ℚ) {u1 u2 : ℚ}
+    (p1 : Plain f u1) (p2 : Plain f u2) :
+    baseRateQ f op same a1 u1 a2 u2 = baseRateQ0 f op same a1 u1 a2 u2 := by
+  unfold baseRateQ baseRateQ0
+  simp only [p1.GDog_iff, p1.GVac_iff, p2.GDog_iff, p2.GVac_iff]
+
+/-- exactly dogmatic operands: the normaliser is 1 and the result is the plain arithmetic mean -/
+theorem dogB_zero (b1 b2 : Fin n → ℚ) : dogB b1 0 b2 0 = meanA b1 b2 := by
+  funext i; unfold dogB meanA; norm_num
+
+/-! ### the complete closed form of `fuse` -/
+
+/-- closed form of `fuse` on rational data, every operator and every arm:
+    `(b, u, a)` with `a = baseRateQ`, and `(b, u) = simplexQ` — for ECm post-processed by the
+    (renormalising) uncertainty maximisation under `a` -/
+def FuseQ.fuseQ (f : Fmt) (op : FuseOp) (same : Bool) (b1 : Fin n → ℚ) (u1 : ℚ) (a1 : Fin n → ℚ)
+    (b2 : Fin n → ℚ) (u2 : ℚ) (a2 : Fin n → ℚ) : (Fin n → ℚ) × ℚ × (Fin n → ℚ) :=
+  let S := simplexQ f op b1 u1 b2 u2
+  let A := baseRateQ f op same a1 u1 a2 u2
+  if op = .ecm then (fun i => projN S.1 A S.2 i - A i * uhatN f S.1 A S.2, uhatN f S.1 A S.2, A)
+  else (S.1, S.2, A)
+
+theorem fuseQ_a (f : Fmt) (op : FuseOp) (same : Bool) (b1 : Fin n → ℚ) (u1 : ℚ) (a1 : Fin n → ℚ)
+    (b2 : Fin n → ℚ) (u2 : ℚ) (a2 : Fin n → ℚ) :
+    (fuseQ f op same b1 u1 a1 b2 u2 a2).2.2 = baseRateQ f op same a1 u1 a2 u2 := by
+  unfold fuseQ; dsimp only; split <;> rfl
+
+theorem fuseQ_of_ne_ecm {op : FuseOp} (hop : op ≠ .ecm) (f : Fmt) (same : Bool) (b1 : Fin n → ℚ) (u1 : ℚ)
+    (a1 : Fin n → ℚ) (b2 : Fin n → ℚ) (u2 : ℚ) (a2 : Fin n → ℚ) :
+    fuseQ f op same b1 u1 a1 b2 u2 a2
+      = ((simplexQ f op b1 u1 b2 u2).1, (simplexQ f op b1 u1 b2 u2).2, baseRateQ f op same a1 u1 a2 u2) := by
+  unfold fuseQ; simp only [if_neg hop]
+
+/-- when the base rate sums to one (and the simplex is well-formed) there is no renormalisation -/
+theorem projN_of_wf {b a : Fin n → ℚ} {u : ℚ} (h : WF b u a) : projN b a u = fun i => b i + a i * u := by
+  funext i; unfold projN; rw [SLV.Props.C09.sum_proj h, div_one]
+
+theorem uhatN_of_wf {b a : Fin n → ℚ} {u : ℚ} (h : WF b u a) :
+    uhatN f b a u = SLV.Props.C09.uhat f b a u := by
+  unfold uhatN SLV.Props.C09.uhat
+  congr 1; funext i
+  unfold SLV.Props.C09.cand; rw [projN_of_wf h]
+
+/-- ECm closed form when the fused base rate is a distribution: `C09.bmax` / `C09.uhat` of the ACm result -/
+theorem fuseQ_ecm_of_dist (same : Bool) {b1 b2 a1 a2 : Fin n → ℚ} {u1 u2 : ℚ}
+    (h1 : SWF b1 u1) (h2 : SWF b2 u2)
+    (hA0 : ∀ i, 0 ≤ baseRateQ f .ecm same a1 u1 a2 u2 i)
+    (hA : ∑ i, baseRateQ f .ecm same a1 u1 a2 u2 i = 1) :
+    fuseQ f .ecm same b1 u1 a1 b2 u2 a2
+      = (SLV.Props.C09.bmax f (simplexQ f .ecm b1 u1 b2 u2).1 (baseRateQ f .ecm same a1 u1 a2 u2)
+            (simplexQ f .ecm b1 u1 b2 u2).2,
+          SLV.Props.C09.uhat f (simplexQ f .ecm b1 u1 b2 u2).1 (baseRateQ f .ecm same a1 u1 a2 u2)
+            (simplexQ f .ecm b1 u1 b2 u2).2,
+          baseRateQ f .ecm same a1 u1 a2 u2) := by
+  have hw := (simplexQ_swf f .ecm h1 h2).toWF hA0 hA
+  unfold fuseQ
+  simp only [if_true, uhatN_of_wf hw, projN_of_wf hw]
+  rfl
+
+/-- `fuse` on well-formed lifted opinions, every operator, every arm, shared base rate or not:
+    the result is the lifted rational closed form `fuseQ`; in particular all components are finite
+    (no division by zero is reached) -/
+theorem fuse_lift_all (op : FuseOp) (same : Bool) {b1 b2 a1 a2 : Fin n → ℚ} {u1 u2 : ℚ}
+    (h1 : WF b1 u1 a1) (h2 : WF b2 u2 a2) :
+    fuse op same (⟨liftT b1, XQ.fin u1, liftT a1⟩ : Opinion (XQ f) n) ⟨liftT b2, XQ.fin u2, liftT a2⟩
+      = ⟨liftT (fuseQ f op same b1 u1 a1 b2 u2 a2).1, XQ.fin (fuseQ f op same b1 u1 a1 b2 u2 a2).2.1,
+          liftT (fuseQ f op same b1 u1 a1 b2 u2 a2).2.2⟩ := by
+  by_cases hop : op = .ecm
+  · subst hop
+    rw [fuse_ecm_lift_gen same h1 h2]; rfl
+  · rw [fuse_lift hop same h1.swf h2.swf, fuseQ_of_ne_ecm hop]
 
 end SLV
